@@ -700,6 +700,7 @@ pub fn reset_world() {
     });
     crate::alloc::reset();
     crate::mmio::unmap_all();
+    crate::pci::reset_bus();
     crate::transport::set_negotiated(0);
 }
 
